@@ -47,7 +47,10 @@ fn call(b: Builder, m: &mut Model, slot: usize, c: usize) -> Builder {
     let s = c as u32;
     // seeds >= 1000: empty text / empty blob; seeds >= 2000: custom tags that share one type number
     let empty = (1000..2000).contains(&c);
-    let text: String = if empty { String::new() } else { (0..(3 + 5 * (c % 1000))).map(|i| (b'a' + ((i + slot) % 26) as u8) as char).collect() };
+    // seeds 5000..5003: contents as real boot loaders and firmware produce them (well-known addresses, names, layouts)
+    let real = (5000..5004).contains(&c);
+    let rv = c.saturating_sub(5000);
+    let text: String = if real { ["root=/dev/sda1 ro quiet", "GRUB 2.06", "/boot/initrd.img", "console=ttyS0,115200"][(rv + slot) % 4].to_string() } else if empty { String::new() } else { (0..(3 + 5 * (c % 1000))).map(|i| (b'a' + ((i + slot) % 26) as u8) as char).collect() };
     let mut blob: Vec<u8> = if empty { vec![] } else { (0..(2 + 7 * (c % 1000))).map(|i| marker(i, slot + 50)).collect() };
     // seeds 3000..: contents that look like structure (end-tag images, a tag header, a whole boot information)
     let look = (3000..4000).contains(&c);
@@ -82,7 +85,7 @@ fn call(b: Builder, m: &mut Model, slot: usize, c: usize) -> Builder {
             b.add_module(t)
         }
         3 => {
-            let t = if look { BasicMemoryInfoTag::new(0, 8) } else { BasicMemoryInfoTag::new(640 + s, 0x1F000 + s) };
+            let t = if real { BasicMemoryInfoTag::new([640, 639, 636, 0][rv], [130048, 0x7FEE0, 3144704, 0][rv]) } else if look { BasicMemoryInfoTag::new(0, 8) } else { BasicMemoryInfoTag::new(640 + s, 0x1F000 + s) };
             m.put(slot, supplied(&t));
             b.meminfo(t)
         }
@@ -92,7 +95,17 @@ fn call(b: Builder, m: &mut Model, slot: usize, c: usize) -> Builder {
             b.bootdev(t)
         }
         5 => {
-            let areas: Vec<MemoryArea> = if look { (0..=(c - 3000) % 3).map(|_| MemoryArea::new(0x8_0000_0000, 0x8_0000_0000, MemoryAreaType::Custom(0))).collect() } else { (0..=c).map(|i| MemoryArea::new(0x1000 * i as u64, 0x800 + i as u64, MemoryAreaType::Available)).collect() };
+            let areas: Vec<MemoryArea> = if real {
+                // the classic PC map (qemu -m 128M), the same without the low area, a map starting at 1 MiB, an unsorted one
+                let pc = [(0u64, 0x9FC00u64, 1u32), (0x9FC00, 0x400, 2), (0xF0000, 0x10000, 2), (0x10_0000, 0x7EE_0000, 1), (0x7FE_0000, 0x2_0000, 2), (0xFFFC_0000, 0x4_0000, 2)];
+                let sel: Vec<(u64, u64, u32)> = match rv {
+                    0 => pc.to_vec(),
+                    1 => pc[1..].to_vec(),
+                    2 => vec![pc[3], pc[4]],
+                    _ => vec![pc[3], pc[0], pc[5], pc[1]],
+                };
+                sel.iter().map(|&(b, l, t)| MemoryArea::new(b, l, if t == 1 { MemoryAreaType::Available } else { MemoryAreaType::Reserved })).collect()
+            } else if look { (0..=(c - 3000) % 3).map(|_| MemoryArea::new(0x8_0000_0000, 0x8_0000_0000, MemoryAreaType::Custom(0))).collect() } else { (0..=c).map(|i| MemoryArea::new(0x1000 * i as u64, 0x800 + i as u64, MemoryAreaType::Available)).collect() };
             let t = MemoryMapTag::new(&areas);
             m.put(slot, supplied(&*t));
             b.mmap(t)
@@ -421,6 +434,38 @@ fn run(ctx: &mut Ctx) {
             }
         }
     }
+    // realistic contents and relations between tags: what one tag says must not change what happens to another
+    ctx.bound("realistic_contents", "memory maps as a PC firmware reports them (4 variants: complete, without the low area, from 1 MiB, unsorted), typical lower/upper memory values, loader names and command lines: each alone, before and after every other builder call, and all of them together with each single call left out");
+    {
+        let dict: [usize; 5] = [5, 3, 0, 1, 2];
+        let mut progs: Vec<Vec<(usize, usize)>> = vec![];
+        for &d in &dict {
+            for v in 0..4usize {
+                progs.push(vec![(d, 5000 + v)]);
+                for s in 0..NSLOTS {
+                    if s != d {
+                        progs.push(vec![(d, 5000 + v), (s, 1)]);
+                        progs.push(vec![(s, 1), (d, 5000 + v)]);
+                    }
+                }
+            }
+        }
+        for v in 0..4usize {
+            let full: Vec<(usize, usize)> = (0..NSLOTS).map(|s| (s, if dict.contains(&s) { 5000 + v } else { 1 })).collect();
+            progs.push(full.clone());
+            for leave in 0..NSLOTS {
+                progs.push(full.iter().copied().filter(|p| p.0 != leave).collect());
+            }
+        }
+        for prog in progs {
+            let describe = || J::obj().set("part", "realistic").set("calls", J::Arr(prog.iter().map(|(s, c)| J::from(format!("{}#{}", SLOT_NAMES[*s], c))).collect()));
+            ctx.leaf(describe, |ctx| {
+                ctx.state_direct();
+                ctx.nontrivial();
+                run_program(ctx, &prog, &|| format!("calls {:?}", prog));
+            });
+        }
+    }
     // large structures
     ctx.bound("large_structures", "blob kinds (SMBIOS, network, custom) with payloads of 64 KiB, 1 MiB, 6 MiB, 16 MiB - 24, 16 MiB and 17 MiB, alone and with a module in front; three 6 MiB payloads whose sum crosses 16 MiB");
     {
@@ -464,12 +509,15 @@ fn run(ctx: &mut Ctx) {
 }
 
 fn run_warm() {
-    let mut m = Model::new();
-    let mut b = Builder::new();
-    for s in 0..NSLOTS {
-        b = call(b, &mut m, s, 1);
-    }
-    let _ = b.build();
+    // (a panic of the library in here is not a harness failure: the same calls are judged inside the leaves)
+    let _ = std::panic::catch_unwind(|| {
+        let mut m = Model::new();
+        let mut b = Builder::new();
+        for s in 0..NSLOTS {
+            b = call(b, &mut m, s, 1);
+        }
+        let _ = b.build();
+    });
     let _ = std::panic::catch_unwind(|| panic!("warm"));
 }
 
